@@ -44,7 +44,7 @@ def run(ck):
   cqcheck.run(ck, ck.budget(200, 4000))
   n = ck.budget(150, 2500)
   made = semcheck.make_programs(ck, n, MASK)
-  made += semcheck.make_programs(ck, ck.budget(40, 600), None, {'templates': ['t_multivalued_calls', 't_nested_disjunction', 't_no_table_rule', 't_record_if']}, builder=templates.build)
+  made += semcheck.make_programs(ck, ck.budget(48, 720), None, {'templates': ['t_multivalued_calls', 't_nested_disjunction', 't_no_table_rule', 't_record_if', 't_unary_minus', 't_mixed_head']}, builder=templates.build)
   jobs = [(pr.text(), [p.name for p in pr.preds]) for pr, _ in made]
   reals = core.pmap(semcheck.job_real, jobs)
   for (pr, model), job, real in zip(made, jobs, reals):
